@@ -5,6 +5,7 @@ from harness.stamp import gen_case, replay, expected_stamps, order_oracle, first
 
 ASSUMPTIONS = [
     'flows are configured in flow2class and their classes in the weight / vtick table; weights, vticks, rate > 0; sizes are positive integers; an `out` is attached',
+    'in 30% of the cases the packets carry a creation time (`Packet.time`) earlier than their arrival at the scheduler (ages 0 - 64 transmission times, as behind a wire); the model and the oracles order equal stamps by the arrival instant at the scheduler',
     'theorems are over exact rationals; the replay compares IEEE doubles bit for bit (stamps, vtime, last_time, aux_vc, vc, clock)',
     'WFQ accumulates weight_sum in the iteration order of a Python set; the model adds in ascending class order. The workloads use integer or dyadic weights '
     '(every partial sum exact, so the order cannot matter) and arbitrary floats only with at most two classes (a + b = b + a); '
@@ -101,7 +102,7 @@ def run(ctx, prop='C14', n_quick=3000, n_thorough=50000):
         j = json.load(open(ctx.replay))
         cases = [j['case']] if j.get('case') else [d['case'] for d in j.get('broken_correspondence', [])]
     else:
-        cases = [gen_case(rng, i) for i in range(n_quick if ctx.quick else n_thorough)]
+        cases = [gen_case(rng, i, aged=0.3 if prop == 'C14' else 0.0) for i in range(n_quick if ctx.quick else n_thorough)]
     dis, orc, hist = [], [], collections.Counter()
     distinct, nontriv, samples, lines = set(), 0, [], 0
     for c, r, model in replay(cases):
@@ -118,6 +119,9 @@ def run(ctx, prop='C14', n_quick=3000, n_thorough=50000):
         for f in fails[:3]:
             f['case'] = c; f['trace'] = r.obs[:300]
             orc.append(f)
+        if c.get('ages'):
+            hist['cases whose packets were created before they arrive (Packet.time < arrival instant)'] += 1
+            hist['equal-stamp pairs at a decision, arrival instants differ, packets created before arrival'] += st['ties'] - st['full_ties']
         hist['equal-stamp pairs at a decision'] += st['ties']
         hist['equal-stamp-and-instant pairs at a decision'] += st['full_ties']
         hist['fairness pairs checked'] += st['fair_pairs']
